@@ -457,7 +457,37 @@ class Interp:
                     this = this.get()
             args = self.eval_args(fn, e["args"], fr)
             return self.call_function(fn, this, args, e)
+        if k == "OpCall" and cands and e.get("member"):
+            fn = self.pick_op(cands, e)
+            this = self.eval(e["args"][0], fr)
+            if isinstance(this, Cell):
+                this = this.get()
+            args = self.eval_args(fn, e["args"][1:], fr)
+            return self.call_function(fn, this, args, e)
+        if k == "Construct" and cands:
+            n = len(e["args"])
+            c = [f for f in cands if len(f["params"]) == n]
+            if len(c) >= 1:
+                fn = c[0]
+                obj = self.dom.new_object(fn.get("cls", ""), e, fr)
+                args = self.eval_args(fn, e["args"], fr)
+                self.call_function(fn, obj, args, e)
+                return obj
         raise AnalysisBroken("call to %s not modelled at %s (in %s)" % (callee or ir.show(e), ir.locstr(e), fr.fn["qn"]))
+
+    def pick_op(self, cands, e):
+        n = len(e["args"]) - 1
+        c = [f for f in cands if len(f["params"]) == n]
+        if len(c) == 1:
+            return c[0]
+        # const / non-const overloads: choose by the constness of the result type
+        want_const = e.get("t", "").startswith("const ")
+        c2 = [f for f in c if bool(f.get("constm")) == want_const]
+        if c2:
+            return c2[0]
+        if c:
+            return c[0]
+        raise AnalysisBroken("no overload of %s for operator call at %s" % (e.get("callee"), ir.locstr(e)))
 
     def pick(self, cands, e):
         n = len(e["args"])
@@ -512,6 +542,9 @@ class Domain:
 
     def copy_value(self, v, t):
         return v
+
+    def new_object(self, cls, e, fr):
+        return Obj(cls)
 
     def default_value(self, t, v, fr):
         return Undef(v["name"])
